@@ -505,6 +505,14 @@ func (in *Interp) encLookup(data []*Term) *encNode {
 		// symbolic bytes: a token is recognised only if the bytes are *forced* to be one; arbitrary bytes do not parse
 		return nil
 	}
+	// leading '#' comment lines (bufconfig's docs-link header) are not part of the document
+	for strings.HasPrefix(s, "#") {
+		i := strings.IndexByte(s, '\n')
+		if i < 0 {
+			return nil
+		}
+		s = s[i+1:]
+	}
 	if !strings.HasPrefix(s, encTokenPrefix) || !strings.HasSuffix(s, "\x00") {
 		return nil
 	}
@@ -597,4 +605,144 @@ func init() {
 			return in.encUnmarshal(args, e.flav, e.strict, e.what)
 		})
 	}
+}
+
+// ---- encoding/json.Marshal used as an equality key (added for C16: writeBufYAMLFile's hoisting) ----
+//
+// bufconfig marshals each module's external lint/breaking struct with encoding/json.Marshal and uses the bytes
+// only as a map key ("are all per-module sections identical?"). The model is an *injective* length-prefixed
+// flattening of the same tagged tree MarshalYAML builds (json flavour: json tags, omitempty, map keys sorted):
+// equal trees <=> equal bytes. The bytes are not JSON text; Unmarshal of them fails ("not a document").
+
+func encU32(n int) []*Term {
+	return []*Term{C(8, uint64(n)&0xff), C(8, uint64(n>>8)&0xff), C(8, uint64(n>>16)&0xff), C(8, uint64(n>>24)&0xff)}
+}
+
+func (in *Interp) encFlatten(n *encNode, out []*Term) []*Term {
+	switch n.kind {
+	case encNull:
+		return append(out, C(8, 'N'))
+	case encScalar:
+		switch basicClass(n.vt) {
+		case "string":
+			s := n.val.(Str)
+			if s.opaque {
+				in.abort("encoding codec: json.Marshal of an opaque string")
+			}
+			out = append(out, C(8, 'S'))
+			out = append(out, encU32(s.Len())...)
+			return append(out, s.terms()...)
+		case "bool":
+			return append(out, C(8, 'B'), Ite(n.val.(*Term), C(8, 1), C(8, 0)))
+		case "int":
+			t := n.val.(*Term)
+			_, signed := width(n.vt)
+			t64 := Ext(t, 64, signed)
+			out = append(out, C(8, 'I'))
+			for sh := 0; sh < 64; sh += 8 {
+				out = append(out, Ext(Bin("bvlshr", t64, C(64, uint64(sh))), 8, false))
+			}
+			return out
+		}
+		in.abort("encoding codec: json.Marshal of scalar type %s", n.vt)
+	case encSeq:
+		out = append(out, C(8, 'L'))
+		out = append(out, encU32(len(n.elems))...)
+		for _, e := range n.elems {
+			out = in.encFlatten(e, out)
+		}
+		return out
+	case encMap:
+		out = append(out, C(8, 'M'))
+		out = append(out, encU32(len(n.keys))...)
+		for i := range n.keys {
+			out = in.encFlatten(n.keys[i], out)
+			out = in.encFlatten(n.vals[i], out)
+		}
+		return out
+	}
+	in.abort("encoding codec: flatten of node kind %d", n.kind)
+	return nil
+}
+
+// encSortMaps orders the entries of every map node that came from a Go map by key (encoding/json sorts map keys);
+// struct-derived nodes keep field order. Only string keys are supported.
+func (in *Interp) encSortGoMap(n *encNode) {
+	for i := 1; i < len(n.keys); i++ {
+		for j := i; j > 0; j-- {
+			a, aok := n.keys[j].val.(Str)
+			b, bok := n.keys[j-1].val.(Str)
+			if !aok || !bok {
+				in.abort("encoding codec: json.Marshal of a map with non-string keys")
+			}
+			if !in.decide(in.strLess(a, b)) {
+				break
+			}
+			n.keys[j], n.keys[j-1] = n.keys[j-1], n.keys[j]
+			n.vals[j], n.vals[j-1] = n.vals[j-1], n.vals[j]
+		}
+	}
+}
+
+func (in *Interp) encTreeJSONSorted(v Value, t types.Type) *encNode {
+	n := in.encTree(v, t, flavJSON)
+	var walk func(n *encNode, t types.Type)
+	walk = func(n *encNode, t types.Type) {
+		if n == nil || t == nil {
+			return
+		}
+		switch u := t.Underlying().(type) {
+		case *types.Pointer:
+			walk(n, u.Elem())
+		case *types.Map:
+			if n.kind == encMap {
+				in.encSortGoMap(n)
+				for _, c := range n.vals {
+					walk(c, u.Elem())
+				}
+			}
+		case *types.Slice:
+			for _, c := range n.elems {
+				walk(c, u.Elem())
+			}
+		case *types.Array:
+			for _, c := range n.elems {
+				walk(c, u.Elem())
+			}
+		case *types.Struct:
+			if n.kind != encMap {
+				return
+			}
+			// keys are in encFields order minus omitted ones: match by key name
+			fields := in.encFields(u, flavJSON)
+			for i, k := range n.keys {
+				ks, _ := k.val.(Str)
+				kc, _ := ks.Conc()
+				for _, f := range fields {
+					if !f.inline && f.key == kc {
+						walk(n.vals[i], f.typ)
+						break
+					}
+				}
+			}
+		}
+	}
+	walk(n, t)
+	return n
+}
+
+func init() {
+	reg("encoding/json.Marshal", func(in *Interp, fn *ssa.Function, args []Value) Value {
+		v, _ := args[0].(Iface)
+		var n *encNode
+		if v.IsNil() {
+			n = &encNode{kind: encNull}
+		} else {
+			if _, isI := v.t.Underlying().(*types.Interface); isI {
+				in.abort("encoding codec: json.Marshal of interface-typed value")
+			}
+			n = in.encTreeJSONSorted(v.v, v.t)
+		}
+		return Tuple{in.byteSlice(in.encFlatten(n, nil)), Iface{}}
+	})
 }
